@@ -121,6 +121,7 @@ def rot_rules(chk):
         chk.ob("R-ROT-SCAN", cs + "{loop}", "one loop over the angles", False, derived="%d" % len(loops), loc=fs.loc(), inconclusive=True)
     for label, kw in (("arias_intensity", dict(parameter=const_av("arias_intensity"))),
                       ("attribute", dict(parameter=AV(kind=K_STR, tags=frozenset(["p:parameter"])))),
+                      ("series attribute", dict(parameter=const_av("velocity"))),
                       ("callable", dict(func=AV(kind=K_FUNC, ref=("closure", lambda I2, fr, args, kwargs, node: AV(
                           kind=K_TOP, shape=None, tags=frozenset(["user-fn"]) | (frozenset(["arg-obj"]) if args and args[0].kind == K_OBJ else frozenset()))))))):
         def build(I, st, fi, kw=kw):
@@ -146,6 +147,13 @@ def rot_rules(chk):
             okv = bool(apps) and all("quad:trapezoid" in e.value.tags and "loopvar" in e.value.tags and "linspace" in e.value.tags for e in apps)
             chk.ob("R-ROT-SCAN", cc + "{measure}", "the appended value is the Arias intensity of this iteration's combination", okv,
                    derived="%d append(s)" % len(apps), loc=apps[0].loc if apps else fs.loc())
+        elif label == "series attribute":
+            # a parameter name whose attribute is a whole series: the measure of the combination is that series, not one sample of it
+            okv = bool(apps) and all(e.value.kind == K_ARRAY and e.value.shape is not None and len(e.value.shape) == 1 and
+                                     e.value.shape[0] == LinExpr("n") for e in apps)
+            chk.ob("R-ROT-SCAN", cc + "{measure}", "the appended value is the named attribute of this iteration's combination, whole", okv,
+                   derived="%s" % [(e.value.kind, e.value.shape) for e in apps], loc=apps[0].loc if apps else fs.loc(),
+                   inconclusive=bool(apps) and any(e.value.kind == K_TOP and e.value.indef for e in apps))
         elif label == "callable":
             okv = bool(apps) and all("user-fn" in e.value.tags and "arg-obj" in e.value.tags for e in apps)
             chk.ob("R-ROT-SCAN", cc + "{measure}", "the appended value is func(new_sig) (or its last element)", okv,
@@ -248,9 +256,25 @@ def cluster_rules(chk):
     fi = ci.methods.get("same_start")
     if fi is not None:
         c = "eqsig/multiple.py:Cluster.same_start"
-        norm = straightline_env(fi.node.body, Normaliser(), exclude={"slave_signal"})
-        rv = [n for n in ast.walk(fi.node) if isinstance(n, ast.Call) and isinstance(n.func, ast.Attribute) and n.func.attr == "reset_values"]
-        gsa = [n for n in ast.walk(fi.node) if isinstance(n, ast.Call) and isinstance(n.func, ast.Attribute) and n.func.attr == "get_section_average"]
+        # the function form get_section_average(sig, ...) (eqsig.fns.average, what the method delegates to) is read as the method form
+        import copy as _copy
+        view = _copy.deepcopy(fi.node)
+
+        class _M(ast.NodeTransformer):
+            def visit_Call(self, n):
+                self.generic_visit(n)
+                if isinstance(n.func, (ast.Name, ast.Attribute)) and ast.unparse(n.func).split(".")[-1] == "get_section_average" and n.args and \
+                        not (isinstance(n.func, ast.Attribute) and not ast.unparse(n.func).startswith(("eqsig.", "average.", "fns."))):
+                    r_ = P.resolve_expr(fi.module, n.func, {})
+                    if r_ and r_[0] == "func" and r_[1].qualname == "eqsig.fns.average.get_section_average":
+                        return ast.copy_location(ast.Call(func=ast.Attribute(value=n.args[0], attr="get_section_average", ctx=ast.Load()),
+                                                          args=n.args[1:], keywords=n.keywords), n)
+                return n
+        view = ast.fix_missing_locations(_M().visit(view))
+        fi_loc = fi.loc
+        norm = straightline_env(view.body, Normaliser(), exclude={"slave_signal"})
+        rv = [n for n in ast.walk(view) if isinstance(n, ast.Call) and isinstance(n.func, ast.Attribute) and n.func.attr == "reset_values"]
+        gsa = [n for n in ast.walk(view) if isinstance(n, ast.Call) and isinstance(n.func, ast.Attribute) and n.func.attr == "get_section_average"]
         if len(rv) == 1 and len(gsa) == 2:
             p = norm.poly(rv[0].args[0])
             ats = sorted(p.atoms())
@@ -395,6 +419,24 @@ def lag_rules(chk, fi):
                detail="a lagged signal whose residual meets this data-dependent condition is left unaligned" if not ok else None)
     if not exits:
         chk.ob("R-LAGSEARCH", c + "{exits}", "the master is skipped by an early exit or a guard", True, derived="no early exit in the body", loc=fi.loc(lp))
+    # (1b) every candidate lag competes: a test `candidate < running minimum` that updates the selected lag must not sit on the else-side
+    # of another such test (if / elif): the second candidate is then never looked at when the first one improves, although it may be the
+    # smaller of the two
+    for il in inner:
+        cand = []
+        for n in ast.walk(il):
+            if isinstance(n, ast.If) and isinstance(n.test, ast.Compare) and len(n.test.ops) == 1 and isinstance(n.test.ops[0], (ast.Lt, ast.LtE)) and \
+                    isinstance(n.test.comparators[0], ast.Name) and \
+                    any(isinstance(x, ast.Assign) and isinstance(x.targets[0], ast.Name) and x.targets[0].id == n.test.comparators[0].id for x in n.body) and \
+                    any(isinstance(x, ast.Assign) and isinstance(x.targets[0], ast.Name) and x.targets[0].id in lagvars for x in n.body):
+                cand.append(n)
+        for a in cand:
+            for b in cand:
+                if a is not b and any(b is x for st_ in a.orelse for x in ast.walk(st_)):
+                    chk.ob("R-LAGSEARCH", c + "{candidates compete: %s}" % norm_stmt(b.test), "every candidate lag is compared with the running minimum "
+                           "whatever the outcome of the other candidates at the same step", False,
+                           derived="`%s` is only tested when `%s` fails" % (ast.unparse(b.test), ast.unparse(a.test)), loc=fi.loc(b), stmt=norm_stmt(b.test),
+                           detail="a lag in this direction is missed when the other direction also improves at the same step")
     # (2) the two directions
     if len(inner) != 2:
         chk.ob("R-LAGSEARCH", c + "{lag loops}", "two loops over range(steps), one per direction", False, derived="%d range loops in the signal loop" % len(inner),
